@@ -51,7 +51,8 @@ struct env {
     /* logs */
     unsigned long n_rand, n_time, n_alloc, n_free, n_mz, n_kdf, n_nfc, n_nfkd;
     unsigned long n_libc_malloc, n_libc_free, n_libc_time;
-    unsigned long n_alloc_tab[2], n_free_tab[2], n_mz_tab[2];   /* calls of the allocate / release / wipe entries per dependency table (A, B) */
+    unsigned long n_alloc_tab[2], n_free_tab[2], n_mz_tab[2];
+    int alloc_recycle; uint8_t recycled[256]; size_t recycled_n;      /* a new block of the size of the last released one starts with that block's final contents */   /* calls of the allocate / release / wipe entries per dependency table (A, B) */
     int last_table;           /* table id (0/1) of the last rand/time call */
     size_t last_rand_n; void *last_rand_p;
     size_t last_alloc_n; void *last_alloc_p;
